@@ -333,6 +333,10 @@ pub fn classify(e: &MuxerError, codec: u8, aac: bool) -> (ErrClass, &'static str
             }
         }
         MuxerError::NonIncreasingDts { .. } => (VideoOrder, "NonIncreasingDts"),
+        // an error variant this harness does not know (added by a later change to the library): the harness keeps compiling
+        // and the contract model treats it as naming no documented precondition
+        #[allow(unreachable_patterns)]
+        _ => (IoOther, "UnknownVariant"),
     }
 }
 
